@@ -368,6 +368,14 @@ func runC07(c *an.Ctx, p *an.Prog, thorough bool) {
 					flag, _ = a.B.ConstString()
 				}
 			}
+			if !adm.IsConst("true") && !adm.IsConst("false") {
+				// isAdmin := flag == "true" after the flag was restricted to the two spellings
+				if s.IsTrue(adm) {
+					adm = &an.Term{K: "c:true", Op: "const", Aux: "true"}
+				} else if s.IsFalse(adm) {
+					adm = &an.Term{K: "c:false", Op: "const", Aux: "false"}
+				}
+			}
 			switch {
 			case adm.IsConst("true") && flag != "true":
 				bad = append(bad, "admin=true returned without flag == \"true\" on path "+s.BlockPath())
@@ -535,7 +543,7 @@ func runC07(c *an.Ctx, p *an.Prog, thorough bool) {
 
 func fieldNameOf(fa *ssa.FieldAddr) string {
 	if fv := an.FieldVar(fa.X.Type(), fa.Field); fv != nil {
-		return fv.Name()
+		return an.CanonField(fa.X.Type(), fa.Field)
 	}
 	return "?"
 }
